@@ -14,6 +14,13 @@ pub struct Adapter {
     pub check: fn(u128, u8, u16, &mut Local) -> CaseResult,
 }
 
+thread_local! {
+    static LIGHT: std::cell::Cell<bool> = const { std::cell::Cell::new(false) };
+}
+fn light() -> bool {
+    LIGHT.with(|l| l.get())
+}
+
 fn varint_u16(v: u16) -> Vec<u8> {
     ref_encode(&Shape::U16, &Value::U(v as u128)).unwrap().bytes
 }
@@ -67,6 +74,9 @@ macro_rules! adapter {
                 Ok((b, 0)) if b == v => {}
                 other => return Err(fail("fixint", format!("{}: decoding {} through from_eio with an empty scratch buffer gave {:?}", $label, hex(&got), other), cj())),
             }
+            // (the transports below are skipped in the 2^33-point exhaustive sweep of the thorough tier, which checks the
+            // byte-exact encoding and the slice / reader decodes of every value)
+            if !light() {
             // a reader that delivers one or two bytes per call and reports Interrupted in between (not an error by the
             // std::io convention) yields the same value
             {
@@ -130,11 +140,13 @@ macro_rules! adapter {
                     }
                 }
             }
+            }
             // the writer path emits the same bytes
             let via_w = no_panic(|| postcard::to_io(&v, Vec::<u8>::new())).map_err(|p| fail("fixint", format!("to_io panicked: {}", p), cj()))?;
             if via_w.as_deref() != Ok(&want[..]) {
                 return Err(fail("fixint", format!("{}: to_io wrote {:?}", $label, via_w.map(|b| hex(&b))), cj()));
             }
+            if !light() {
             // a writer that accepts only a few bytes per call receives the same bytes
             {
                 let k = 1 + (before as usize % 3);
@@ -174,6 +186,7 @@ macro_rules! adapter {
                 if via_w.as_deref() != Ok(&want_t[..]) {
                     return Err(fail("fixint", format!("{}: to_io of {{head, x}} wrote {:?}", $label, via_w.map(|b| hex(&b))), cj()));
                 }
+            }
             }
             // one byte short of the fixed field
             let short = &got[..1 + N - 1];
@@ -294,7 +307,10 @@ pub fn run(ctx: &Ctx) {
         ctx.par_range("exhaustive-32-bit-u32-le-be", 2u64 << 32, move |i, l| {
             let a = &ads[4 + (i >> 32) as usize];
             let before = l.nontrivial.len();
+            // every 65537th value with all transports, the others with the core checks only
+            LIGHT.with(|f| f.set(i % 65537 != 0));
             let r = (a.check)((i & 0xFFFF_FFFF) as u128, 1, 2, l);
+            LIGHT.with(|f| f.set(false));
             if l.nontrivial.len() > before {
                 l.nontrivial.clear();
                 l.nontrivial_enum(1);
